@@ -61,6 +61,11 @@ META = {
         note="Trusted: Lean kernel; fact extractor; cluster and engine models tied by correspondence. One genuine defect (stream path applied a file before verifying it) found and repaired in /repo (1480a4e).",
         technique="Lean 4 decision-function theorems + reachable-world invariant + regenerated branch-condition facts + differential cluster and replica suites",
     ),
+    "C19": dict(
+        text="Lean 4 proofs over a model of the proxy's decision logic, for every request and every timeline of database positions: a read carrying a TXID >= 1 is forwarded only at a moment when the tracked database exists at or after that TXID and ends in a time-out otherwise; every non-passthrough write (any method but GET/HEAD, or an always-forward path) takes the non-read path, which reaches the local application only on the primary (redirect on a replica, error when no primary is known); the cookie read after the application answered is at or after the write. Branch conditions/actions of the four proxy functions are regenerated from the source and compared by a fact theorem; a real ProxyServer + recording application + real store is compared with the model and judged by Lean spec predicates across methods, path classes, cookie values, roles and replication timing.",
+        note="Trusted: Lean kernel; proxy model tied by correspondence and regenerated facts; Go regexp/net/http. One genuine defect (reads with a cookie were forwarded at once when the database did not exist locally yet) found and repaired in /repo.",
+        technique="Lean 4 theorems over a decision-logic model (all requests, all position timelines) + regenerated branch facts + differential suite on the real ProxyServer",
+    ),
     "C10": dict(
         text="Lean 4 proofs that (a) the small-step model of Export / WriteSnapshotTo performs exactly the guard calls and state captures of db.go in source order (fact regenerated from the source on every run), with the capture strictly inside the exclusive WAL-write-lock bracket and, for Export, no gap between that bracket and the read locks, (b) over the generated RWMutex code, for any lock table and any number of owners, a lock held shared by the snapshot cannot be taken exclusively by anyone else and the exclusively held write lock excludes every other owner, (c) a snapshot passing its checksum self-check is the image of its reported position under an explicit collision-freedom hypothesis; plus a schedule-exploring differential suite that suspends the real functions at every lock call and runs commits, checkpoints, WAL restarts, truncations and drops in the window, judged by the Lean spec (bytes = image of the reported position).",
         note="Trusted: Lean kernel; fact extractor; small-step model tied by the snapsched suite; suspension at lock-call granularity. One genuine defect (Export's lock window) was found by this suite and repaired in /repo (068dfa9).",
